@@ -15,6 +15,7 @@
     extent of lexical-error spans (they depend on the generated automaton and are not
     modelled), token values are source slices, diagnostic spans lie in the text. *)
 From Oal Require Import Text Lexer LexerProofs Peg Grammar PegProofs PegYield GrammarProofs.
+From Oal Require TriviaProofs.
 Local Open Scope nat_scope.
 
 Theorem C11_yield :
@@ -62,3 +63,12 @@ Print Assumptions C11_tokenizer_fuel_irrelevant.
 Example C11_tokenizer_nonvacuous : option_map (fun toks => spans toks ex_text 0%N) (tokenize ex_text)
   = Some [(20, 0, 3); (0, 3, 4); (26, 4, 5); (0, 5, 6); (48, 6, 7); (0, 7, 8); (29, 8, 15); (40, 15, 16)]%N.
 Proof. exact ex_tokenizes. Qed.
+
+(** the tree is a function of the non-trivia tokens: generic in the grammar *)
+Theorem C11_trivia_free : forall class_ok is_trivia K g toks n p s acc,
+  aligned is_trivia toks s -> s <= length toks -> Forall (TriviaProofs.leaf_ok is_trivia toks) acc ->
+  run class_ok is_trivia K g (TriviaProofs.toks' is_trivia toks) n p (TriviaProofs.phi is_trivia toks s) (map (TriviaProofs.tm is_trivia toks) acc) =
+  TriviaProofs.rmap is_trivia toks (run class_ok is_trivia K g toks n p s acc) /\
+  (forall s' ms, run class_ok is_trivia K g toks n p s acc = Ok s' ms -> Forall (TriviaProofs.leaf_ok is_trivia toks) ms).
+Proof. exact TriviaProofs.trivia_free. Qed.
+Print Assumptions C11_trivia_free.
